@@ -16,6 +16,17 @@ CHECKS = {
             'Bounded: program size, tape cap 6/7, <=3/4 non-default answers; conditions are environment oracles; data values '
             'limited to the history-encoding integers of the generator; hash seeds limited to those run.',
             'DESIGN.md 2/C01'),
+    'C02': ('exploration',
+            'bounded-exhaustive program enumeration; each converted program is traced once with a functional (tracing) operator backend and the term is evaluated on the whole input domain',
+            'Side-effect-free, total, definitely-assigned programs with data conditions over traced arguments (4 menus incl. closures, '
+            'nonlocal writers, attribute/constant-key state; ~7.2k programs quick) are converted with a tracing backend that runs both '
+            'branches of every traced conditional from one get_state() snapshot, keeps select() terms for the first nouts entries, '
+            'and traces loop test/body once on placeholders injected by set_state(); the resulting term is evaluated on 144 inputs '
+            'and must equal the original everywhere.',
+            'Functions are only defined at the top level of the body; lambdas excluded (documented limitation). Known finding: '
+            'nonlocal writes by a local function called inside control flow are not carried as state. "Random larger programs" of '
+            'the quantifier are not claimed.',
+            'DESIGN.md 2/C02'),
     'C03': ('exploration',
             'bounded-exhaustive program enumeration x exhaustive tapes, run with a contract-monitoring operator backend injected through PyToPy.get_extra_locals',
             'Every dynamic if_stmt/while_stmt/for_stmt/if_exp/and_/or_/not_ invocation of ~25k programs (C01 menus, plus a '
